@@ -147,6 +147,9 @@ PARSED_FAMILIES = [
     [('Costco', 'contains("CO")', 'Shop', 'A', None), ('Costco', 'contains("COSTCO") and amount > 5', 'Gas', 'B', None),
      ('Other', 'contains("X")', 'Misc', '', None)],
     [('Dup', 'contains("AAAA")', 'One', '', None), ('Dup', 'contains("B")', 'Two', 'S2', 60), ('Dup', 'contains("CC")', 'Three', 'S3', None)],
+    # explicit priority 0 / negative against the default 50
+    [('Fallback', 'contains("AMAZON") and amount > 1 and month == 3', 'Review', 'Marketplace', 0), ('Plain', 'contains("A")', 'Shopping', 'Online', None),
+     ('Neg', 'contains("AMAZON PRIME VIDEO")', 'Video', '', -1)],
     # a very long literal against one more constraint kind
     [('Long', f'contains("{LONG}")', 'LongCat', '', None), ('Short', 'contains("UB") and amount > 60', 'ShortCat', 'S', None)],
     # many pattern calls against higher priority
